@@ -333,6 +333,9 @@ func (h *handler1) handleBrokerPublish(ctx context.Context, mqPublish *mqPkts.Pu
 	var needsRegister bool
 	var topicID uint16
 	var topicIDType uint8
+	// TopicID to be used in REGISTER if the topic already has one which the
+	// client does not know yet (0 = none).
+	var provisionalTopicID uint16
 	if snPkts.IsShortTopic(mqPublish.TopicName) {
 		topicID = snPkts.EncodeShortTopic(mqPublish.TopicName)
 		topicIDType = snPkts1.TIT_SHORT
@@ -341,6 +344,15 @@ func (h *handler1) handleBrokerPublish(ctx context.Context, mqPublish *mqPkts.Pu
 		var ok bool
 		topicID, topicIDType, ok = h.findTopicID(mqPublish.TopicName)
 		needsRegister = !ok
+		if ok && topicIDType == snPkts1.TIT_REGISTERED && h.provisionalTopicIDIs(topicID) {
+			// The TopicID is registered only for a SUBSCRIBE whose
+			// SUBACK the client has not got yet (the broker may send
+			// matching messages before its SUBACK): the client
+			// does not know it. It is registered at the client
+			// first, like any other new topic.
+			needsRegister = true
+			provisionalTopicID = topicID
+		}
 	}
 
 	snPublish := snPkts1.NewPublish(topicID, mqPublish.Payload, mqPublish.Dup,
@@ -402,7 +414,10 @@ func (h *handler1) handleBrokerPublish(ctx context.Context, mqPublish *mqPkts.Pu
 		// registered must use the same TopicID: the client accepts
 		// only one TopicID for a topic name.
 		var topicID uint16
-		if pendingID, ok := h.pendingTopicIDs.Load(mqPublish.TopicName); ok {
+		if provisionalTopicID != 0 {
+			topicID = provisionalTopicID
+			h.pendingTopicIDs.Store(mqPublish.TopicName, topicID)
+		} else if pendingID, ok := h.pendingTopicIDs.Load(mqPublish.TopicName); ok {
 			topicID = pendingID.(uint16)
 		} else {
 			var err error
